@@ -7,6 +7,8 @@ extern "C" {
 #include "vk_proto.h"
 }
 #include <functional>
+#include <fstream>
+#include <sstream>
 #include <algorithm>
 #include <sys/mman.h>
 #include <sys/wait.h>
@@ -138,6 +140,8 @@ struct World {
   // a violation after which the execution can meaningfully continue (used where several independent cases share one
   // execution, so that every failing case is reported, not only the first)
   std::vector<std::pair<std::string, std::string>> softs;
+  long livelock_after = 1000;   // identical iterations (nobody else runnable) that count as a busy loop; scenarios feeding long uniform inputs raise it
+  bool crash_soft = false; std::string san_log_prefix, crash_context;   // how a crash of a simulated program is reported (ops.hpp VK_FATAL)
   void soft_violation(const std::string &key0, const std::string &text) { std::string key = keyfix(key0); for (auto &s : softs) if (s.first == key) return; if (softs.size() < 64) softs.push_back({key, text}); }
 
   // ---------------------------------------------------------------- process table
@@ -393,7 +397,7 @@ struct World {
         if (curp && en.size() > 1) { pick = 1; forced_yields++; curlog.clear(); curlog_sel.clear(); spin_count = 0; Proc &q = *en[pick]; cur = q.vpid; step(q); continue; }
         // identical system calls can hide internal progress (e.g. skipping finished records held in a buffer): only a very long
         // run of identical iterations with nobody else able to run is reported as a busy loop
-        if (curp && en.size() == 1 && spin_count >= 1000) { scn->on_livelock(*this, *curp); if (aborted) break; curlog.clear(); curlog_sel.clear(); spin_count = 0; }
+        if (curp && en.size() == 1 && spin_count >= livelock_after) { scn->on_livelock(*this, *curp); if (aborted) break; curlog.clear(); curlog_sel.clear(); spin_count = 0; }
       }
       if (en.size() > 1) {
         bool loc = curp && (intrinsic_local(curp->req.op) || scn->local_op(*this, *curp, curp->req)) && !deliverable(*curp);
